@@ -80,4 +80,18 @@ RenderParseOK(in, out) ==
     /\ out.ne = in.ne                          \* no additional (or lost) element: no injection
     /\ SameValues(in.texts, out.texts)
     /\ SameAttrs(in.attrs, out.attrs)
+
+\* (4) delivery independence.  The tokenizer's contract is over the byte stream: how the bytes
+\* arrive (one Read, bounded reads of 1/2/3/7/64 bytes, random short reads) and where its internal
+\* buffer happens to be refilled must not change the tokens.  w: the tokens (type, data, attributes)
+\* of an input delivered whole; c: the tokens of the same input delivered differently, behind a
+\* padding comment "<!--" pad x "p" "-->" when pad > 0 or the boundary flag is set (the comment moves
+\* the 4096 / 8192 refill boundary of the tokenizer's buffer into the input).
+\* Byte strings longer than 256 bytes are logged as <<65536, length, sum, weighted sum>> of (byte + 1)
+\* modulo DM (weights 1, 2, ...); the padding comment's data is pad bytes "p" (112).
+DM == 32749
+PadData(n) == IF n <= 256 THEN [i \in 1..n |-> 112]
+              ELSE <<65536, n, (n * 113) % DM, ((((n * (n + 1)) \div 2) % DM) * 113) % DM>>
+PadToken(n) == [ty |-> 5, data |-> PadData(n), attrs |-> <<>>]
+DeliveryIndependent(w, c, padded, pad) == c = (IF padded THEN <<PadToken(pad)>> ELSE <<>>) \o w
 =============================================================================
